@@ -111,14 +111,18 @@ fn probe_term(c: &ProbeCase, p: &Probe, alphabet: u8) -> Option<(Tm, bool /*must
 }
 
 fn run(c: &ProbeCase, obs: &mut Obs) -> Result<(), String> {
-    crate::with_lang!(c.base.lang, L => run_l::<L>(c, obs))
+    crate::with_lang!(c.base.lang, L => run_l::<L, ()>(c, obs))
 }
 
-fn run_l<L: Language + 'static>(c: &ProbeCase, obs: &mut Obs) -> Result<(), String> {
+fn run_with_analysis(c: &ProbeCase, obs: &mut Obs) -> Result<(), String> {
+    crate::with_lang!(c.base.lang, L => run_l::<L, crate::analyses::MinSize>(c, obs))
+}
+
+fn run_l<L: Language + 'static, N: Analysis<L> + Default + 'static>(c: &ProbeCase, obs: &mut Obs) -> Result<(), String> {
     let nm = &c.base.naming;
     let alphabet = 4u8;
-    let mut eg: EGraph<L> = new_egraph((), c.base.extraction_subst);
-    let st = drive::<L, ()>(&c.base, &mut eg, &mut |_, _, _| Ok(()))?;
+    let mut eg: EGraph<L, N> = new_egraph(N::default(), c.base.extraction_subst);
+    let st = drive::<L, N>(&c.base, &mut eg, &mut |_, _, _| Ok(()))?;
     let mut tracked = st.handles.clone();
     let has_sym_or_red = {
         let pr = eg.progress();
@@ -540,6 +544,19 @@ pub fn property(tier: Tier) -> Property {
             panic_is_violation: false,
             render,
             rule: "a reachable e-graph (mixed history incl. rewriting) followed by probe terms: literal re-insertion, alpha-variant, free renaming, subterm replaced by a union-equal term, subterm, arbitrary term; lookup <=> add creates nothing, eq(lookup, add), lookup changes nothing, renaming equivariance; non-trivial = a non-literal variant of a represented term was probed, or a literal one on an e-graph with a symmetry or a redundancy; distinct by rendered case",
+            case_timeout_s: tier.pick(30, 120),
+            exhaustive: false,
+        }));
+    }
+    {
+        let max_ops = tier.pick(7, 10);
+        stages.push(Box::new(Stage {
+            name: "probe-core-analysis",
+            source: random(move || strategy(LangId::Core, max_ops), tier.pick(2000, 40_000)),
+            run: run_with_analysis,
+            panic_is_violation: false,
+            render,
+            rule: "as probe-core, on e-graphs that carry an analysis (smallest term size) whose data change in unions and rewrites",
             case_timeout_s: tier.pick(30, 120),
             exhaustive: false,
         }));
